@@ -70,11 +70,20 @@ async fn c14_async(ctx: &mut Ctx) {
         }
     };
     let n = 2 + ctx.tape.choose(60) as usize;
-    let big = ctx.tape.choose(3) != 0;
-    ctx.ev(format!("cfg max_nodes_response={max_nodes} peers={n} big_records={big}"));
+    // record sizes: 0 plain (~150 bytes), 1 all padded to the 300-byte limit, 2 every size in between (byte granularity)
+    let sizes = ctx.tape.choose(4).min(2);
+    ctx.ev(format!("cfg max_nodes_response={max_nodes} peers={n} record_sizes={}", ["plain", "maximal", "mixed"][sizes as usize]));
     let peers: Vec<usize> = (8..8 + n).collect();
     for &p in &peers {
-        let enr = if big { big_record(p) } else { peer_enr(p, 1) };
+        let enr = match sizes {
+            1 => big_record(p),
+            2 => {
+                let mut spec = peer_spec(p, 1);
+                spec.pad = ctx.tape.choose(150) as u16;
+                ident::try_record(spec).unwrap_or_else(|| peer_enr(p, 1))
+            }
+            _ => peer_enr(p, 1),
+        };
         sw.emit(HandlerOut::Established(enr, peer_addr(p), if p % 3 == 0 { ConnectionDirection::Incoming } else { ConnectionDirection::Outgoing })).await;
         if p % 8 == 0 {
             sw.settle().await;
@@ -356,13 +365,21 @@ async fn c17_async(ctx: &mut Ctx) {
         if !outgoing[&voter] {
             ctx.fault("vote_from_incoming_peer");
         }
+        let mut announced: Vec<SocketAddr> = vec![];
         for e in sw.take_events() {
-            if let Event::SocketUpdated(_) = e {
+            if let Event::SocketUpdated(a) = e {
                 socket_updated_events += 1;
+                announced.push(a);
             }
         }
         let enr = sw.d.local_enr();
         let sock = socks(&enr);
+        // whatever is announced must be an address the record now advertises
+        for a in &announced {
+            if sock.0 != Some(*a) && sock.1 != Some(*a) {
+                ctx.fail("c17.announced-address-not-in-record", format!("SocketUpdated announced {a} but the local record advertises {:?}", sock), &[]);
+            }
+        }
         if sock != last_sock {
             ctx.ev(format!("t={} local record address {:?} -> {:?} (seq {})", now_ms(), last_sock, sock, enr.seq()));
             ctx.count("address_changes");
@@ -373,6 +390,11 @@ async fn c17_async(ctx: &mut Ctx) {
                 ctx.fail("c17.invalid-signature", "the updated local record does not verify", &[]);
             }
             let changed: Vec<SocketAddr> = [(sock.0, last_sock.0), (sock.1, last_sock.1)].iter().filter(|(n, o)| n != o).filter_map(|(n, _)| *n).collect();
+            for a in &changed {
+                if !announced.contains(a) {
+                    ctx.fail("c17.change-not-announced", format!("the advertised address changed to {a} but the SocketUpdated events of this step announced {announced:?}"), &[]);
+                }
+            }
             for a in changed {
                 changes_to_some += 1;
                 let now = now_ms();
@@ -499,7 +521,8 @@ async fn c20_async(ctx: &mut Ctx) {
                 }
                 drop(req);
             } else {
-                let payload = vec![0xEE, id[1], 1];
+                // (an explicitly empty payload is a response like any other)
+                let payload = if ctx.tape.choose(4) == 0 { vec![] } else { vec![0xEE, id[1], 1] };
                 let r = req.respond(payload.clone());
                 ctx.ev(format!("t={} app responds {} -> {}", now_ms(), hex::encode(&id), if r.is_ok() { "ok" } else { "err" }));
                 if handler_alive {
